@@ -233,6 +233,13 @@ def _run(rig, tx_delays, rx_delays, init_delay, chunks, rx_strings, rx_gaps,
                         f"output image changed from "
                         f"{neighbour[k_[0]]:#04x} to {now[k_[0]]:#04x}")
         # ---------------- application ----------------
+        if desc.get("early_write") and cyc == 0 and chunks:
+            # the application writes its first command right after creating
+            # the device, before the initialisation handshake is through
+            c = chunks.pop(0)
+            os.write(dev.out_write, c)
+            app_sent += c
+            res.count("histories_with_a_write_before_the_handshake")
         if dev.connected and chunks and cyc % 2 == 0:
             c = chunks.pop(0)
             os.write(dev.out_write, c)
@@ -302,6 +309,7 @@ def run_shard(params):
                     init_ta=rng.choice([0, 0, 1]),
                     prior=rng.choice([0, 0, 0, 5, 8]),
                     init_hold=rng.choice([0, 0, 1, 2, 3]),
+                    early_write=rng.random() < 0.25,
                     real_cycle=rng.random() < 0.5,
                     init_delay=initd, chunks=[c.hex() for c in chunks],
                     rx_strings=[s.hex() for s in rxs])
